@@ -166,31 +166,33 @@ theorem tokens_in_position_order (E : Env) (P : Pats) (hP : PseudoProgress P) (h
 example : (tokenize ⟨[], []⟩ indPats indSrc).err = none ∧ (tokenize ⟨[], []⟩ indPats indSrc).toks.length = 13 := by decide +kernel
 
 
-/-- **fstring_middle_tokens_are_source_slices.**  Under the hypotheses of `tokens_in_position_order`, every
-    FSTRING_MIDDLE token - the literal parts of an f-string and its format specs, across any number of lines and inside
-    nested f-strings - has as its text exactly the source characters between its start and end coordinates. -/
-theorem fstring_middle_tokens_are_source_slices (E : Env) (P : Pats) (hP : PseudoProgress P) (hF : FstrLen P) (src : List Nat)
+/-- **fstring_tokens_are_source_slices.**  Under the hypotheses of `tokens_in_position_order` plus `FstrEnds` (every match
+    of the f-string scanners ends with the brace / the closing quote it reports - a certificate on the shipped patterns),
+    every FSTRING_MIDDLE token (literal parts and format specs, across any number of lines, inside nested f-strings), every
+    FSTRING_END token and every operator token (including the `{` / `}` the f-string scanner emits) has as its text exactly
+    the source characters between its start and end coordinates. -/
+theorem fstring_tokens_are_source_slices (E : Env) (P : Pats) (hP : PseudoProgress P) (hF : FstrLen P) (hE : FstrEnds P) (src : List Nat)
     (hfin : (tokenize E P src).err = none) :
-    ∀ t ∈ (tokenize E P src).toks, t.ty = .FSTRING_MIDDLE → t.str = srcText (splitLines src []) t.start t.stop := by
+    ∀ t ∈ (tokenize E P src).toks, (t.ty = .FSTRING_MIDDLE ∨ t.ty = .FSTRING_END ∨ t.ty = .OP) →
+      t.str = srcText (splitLines src []) t.start t.stop := by
   unfold tokenize at hfin ⊢
   simp only [] at hfin ⊢
   cases h : tokenizeLines E P ((splitLines src []).length + 2) (splitLines src []) TState.init [] with
   | error e => rw [h] at hfin; simp at hfin
   | ok ts =>
     simp only []
-    exact tokenizeLines_ft (splitLines src []) E P hP hF _ _ TState.init [] ts ⟨0, 0⟩ rfl (OI.empty (Pos.le_refl' _))
+    exact tokenizeLines_ft (splitLines src []) E P hP hF hE _ _ TState.init [] ts ⟨0, 0⟩ rfl (OI.empty (Pos.le_refl' _))
       (by intro p rest hp; cases hp) (by simp [TState.init]) (MidOK.nil _) h
 
-/-- **all_tokens_but_fstring_delimiters_are_source_slices**: the two slice theorems together - every token except
-    FSTRING_END and the `{` / `}` operators emitted by the f-string scanner carries the source text between its
-    coordinates. -/
-theorem all_tokens_but_fstring_delimiters_are_source_slices (E : Env) (P : Pats) (hP : PseudoProgress P) (hF : FstrLen P)
+/-- **all_tokens_are_source_slices** (the first clause of C08, for every token): on every text the tokenizer finishes on,
+    each token's text equals the source between its start and end coordinates. -/
+theorem all_tokens_are_source_slices (E : Env) (P : Pats) (hP : PseudoProgress P) (hF : FstrLen P) (hE : FstrEnds P)
     (src : List Nat) (hfin : (tokenize E P src).err = none) :
-    ∀ t ∈ (tokenize E P src).toks, t.ty ≠ .FSTRING_END → ¬ (t.ty = .OP ∧ (t.str = [123] ∨ t.str = [125])) →
-      t.str = srcText (splitLines src []) t.start t.stop := by
-  intro t ht h1 h2
-  by_cases hm : t.ty = .FSTRING_MIDDLE
-  · exact fstring_middle_tokens_are_source_slices E P hP hF src hfin t ht hm
-  · exact tokens_are_source_slices E P hP src hfin t ht ⟨hm, h1, h2⟩
+    ∀ t ∈ (tokenize E P src).toks, t.str = srcText (splitLines src []) t.start t.stop := by
+  intro t ht
+  by_cases hm : t.ty = .FSTRING_MIDDLE ∨ t.ty = .FSTRING_END ∨ t.ty = .OP
+  · exact fstring_tokens_are_source_slices E P hP hF hE src hfin t ht hm
+  · simp only [not_or] at hm
+    exact tokens_are_source_slices E P hP src hfin t ht ⟨hm.1, hm.2.1, fun h => hm.2.2 h.1⟩
 
 end XV.Tz
